@@ -44,6 +44,13 @@ func (rt *Transfer) deleteFiles(fileList []*File) error {
 			if findInFileList(fileList, path) {
 				return nil
 			}
+			if rt.Excluded != nil && rt.Excluded(path) {
+				// protected by an exclude rule
+				if info.IsDir() {
+					return fs.SkipDir
+				}
+				return nil
+			}
 			if rt.Opts.Verbose {
 				rt.Logger.Printf("  deleting %s", path)
 			}
